@@ -47,8 +47,10 @@ PRESENTATION_OPTS = {
 }
 
 
-def norm(sc, t, v):
-    """normal form for comparing read results: nil containers/binaries == empty; map entries sorted"""
+def norm(sc, t, v, presence=False):
+    """normal form for comparing read results: nil containers/binaries == empty; map entries sorted.
+    presence=True: an OPTIONAL container/binary field keeps the difference between absent (nil) and present-but-empty --
+    for optional fields that difference is the field's presence (IsSet, and whether Write emits it again)."""
     if v is None:
         return v
     if "nil" in v:
@@ -60,9 +62,9 @@ def norm(sc, t, v):
             return {"a": "bin:"}
         return {"nil": True}
     if t["n"] in ("list", "set"):
-        return {"l": [norm(sc, t["v"], x) for x in (v.get("l") or [])]}
+        return {"l": [norm(sc, t["v"], x, presence) for x in (v.get("l") or [])]}
     if t["n"] == "map":
-        ents = [[norm(sc, t["k"], k), norm(sc, t["v"], x)] for k, x in (v.get("m") or [])]
+        ents = [[norm(sc, t["k"], k, presence), norm(sc, t["v"], x, presence)] for k, x in (v.get("m") or [])]
         ents.sort(key=lambda e: json.dumps(e[0], sort_keys=True))
         return {"m": ents}
     if t["n"] == "struct":
@@ -72,7 +74,12 @@ def norm(sc, t, v):
         out = {}
         for f in sc["structs"][t["s"]]["fields"]:
             if f["name"] in fs:
-                out[f["name"]] = norm(sc, f["type"], fs[f["name"]])
+                x = fs[f["name"]]
+                if (presence and f["req"] == "optional" and "none" in f["def"] and isinstance(x, dict) and "nil" in x
+                        and f["type"]["n"] in ("list", "set", "map", "binary")):
+                    out[f["name"]] = {"nil": True}
+                else:
+                    out[f["name"]] = norm(sc, f["type"], x, presence)
         return {"s": out}
     return v
 
@@ -252,7 +259,7 @@ def run_lab(ctx, lab_cases, sc, tlc_cases, tag):
                 what = "error-flag"
             elif not exp["err"]:
                 st = {"n": "struct", "s": tc["s"]}
-                if norm(sc, st, r.get("v")) != norm(sc, st, exp["v"]):
+                if norm(sc, st, r.get("v"), True) != norm(sc, st, exp["v"], True):
                     what = "object"
                 elif not calls_ok(r.get("toks") or [], exp["calls"], tc["toks"]):
                     what = "calls"
